@@ -56,6 +56,7 @@ type frame struct {
 	visits           map[*ssa.BasicBlock]int
 	phisDone         bool
 	retDone          bool
+	isInit           bool
 }
 
 // interp is the state of one worker.
@@ -322,6 +323,12 @@ func (in *interp) visitInstr(fr *frame, instr ssa.Instruction) bool {
 		fr.set(instr, in.binop(instr.Op, instr.X.Type(), fr.get(instr.X), fr.get(instr.Y)))
 
 	case *ssa.Call:
+		if fr.isInit {
+			// package initialisers: an initialiser the engine cannot run
+			// (e.g. template.Must(...Parse...)) poisons only its own variable
+			in.initCall(fr, instr)
+			break
+		}
 		fn, args := in.prepareCall(fr, &instr.Call)
 		fr.set(instr, in.call(fr, instr.Pos(), fn, args))
 
@@ -724,6 +731,7 @@ func (in *interp) callSSA(caller *frame, callpos token.Pos, fn *ssa.Function, ar
 	if in.logging && fn.Pkg != nil {
 		in.covered[fn] = true
 	}
+	fr.isInit = fn.Synthetic != "" && fn.Pkg != nil && fn == fn.Pkg.Func("init")
 	fr.env = make([]value, fi.nslots)
 	fr.block = fn.Blocks[0]
 	for i := range fn.Params {
@@ -800,6 +808,12 @@ func (in *interp) runFrame(fr *frame) {
 		}
 		instrs := b.Instrs
 		for i := first; i < len(instrs); i++ {
+			if fr.isInit {
+				if in.initInstr(fr, instrs[i]) {
+					return
+				}
+				continue
+			}
 			if in.visitInstr(fr, instrs[i]) {
 				return
 			}
@@ -1212,4 +1226,51 @@ func (in *interp) rtypeMethod(name string, args []value) value {
 		return types.AssignableTo(t, u)
 	}
 	panic(in.unsupported("reflect type method " + name))
+}
+
+// poison stands for a package-level value whose initialiser could not be
+// executed; any use of it fails (reported as unsupported), but the rest of
+// the package initialises normally.
+type poison struct{ why string }
+
+// initInstr executes one instruction of a package initialiser; a failure
+// caused by an unsupported initialiser poisons the instruction's value.
+func (in *interp) initInstr(fr *frame, instr ssa.Instruction) (ret bool) {
+	defer func() {
+		if r := recover(); r != nil {
+			if a, ok := r.(abortPath); ok && a.kind != abortUnsupported {
+				panic(r)
+			}
+			if _, isTarget := r.(targetPanic); isTarget {
+				panic(r)
+			}
+			if v, ok := instr.(ssa.Value); ok {
+				fr.set(v, poison{fmt.Sprint(r)})
+			}
+			switch instr.(type) {
+			case *ssa.If, *ssa.Jump, *ssa.Return:
+				panic(r) // control flow cannot be poisoned
+			}
+		}
+	}()
+	return in.visitInstr(fr, instr)
+}
+
+func (in *interp) initCall(fr *frame, instr *ssa.Call) {
+	defer func() {
+		if r := recover(); r != nil {
+			why := fmt.Sprint(r)
+			if a, ok := r.(abortPath); ok {
+				if a.kind != abortUnsupported {
+					panic(r)
+				}
+				why = a.msg
+			} else if _, isTarget := r.(targetPanic); isTarget {
+				panic(r)
+			}
+			fr.set(instr, poison{why})
+		}
+	}()
+	fn, args := in.prepareCall(fr, &instr.Call)
+	fr.set(instr, in.call(fr, instr.Pos(), fn, args))
 }
